@@ -121,6 +121,8 @@ pub fn build_engine(p: &Program) -> Result<Tera, String> {
     t.register_filter("twice", |s: &str, _: Kwargs, _: &State| format!("{s}{s}"));
     t.register_function("answer", |_: Kwargs, st: &State| -> tera::TeraResult<i64> { Ok(st.get::<i64>("n1")?.unwrap_or(0) + 42) });
     t.register_filter("json_encode", tera_contrib::json::json_encode);
+    // a filter whose result depends on the render context through the State it is handed
+    t.register_filter("plus_n1", |v: i64, _: Kwargs, st: &State| -> tera::TeraResult<i64> { Ok(v + st.get::<i64>("n1")?.unwrap_or(0)) });
     t.global_context().insert("g", "G&<");
     t.add_raw_templates(p.templates.clone()).map_err(|e| e.to_string())?;
     Ok(t)
@@ -241,10 +243,17 @@ pub fn run(cx: &mut Cx) {
         }
         cx.begin_case(case, "program");
         let mut rng = cx.rng(case);
-        let program = {
+        let mut program = {
             let mut g = PGen::new(&mut rng);
             g.program()
         };
+        // partials that name no ordinary variable and still depend on the context (the dump variable, a registered filter
+        // reading the State), next to one that really is static; an entry including all three
+        program.templates.push(("cf/dump.html".into(), "[{% for k, v in __tera_context %}{{ k }}={{ v }};{% endfor %}]".into()));
+        program.templates.push(("cf/state.html".into(), "({{ 1 | plus_n1 }})".into()));
+        program.templates.push(("cf/static.html".into(), "static <text>".into()));
+        program.templates.push(("cf/page.html".into(), "{% include \"cf/dump.html\" %}|{% include \"cf/state.html\" %}|{% include \"cf/static.html\" %}|{{ s1 }}{% for i in [1, 2] %}{% include \"cf/state.html\" %}{% endfor %}".into()));
+        program.entries.push("cf/page.html".into());
         let tera = match guard(|| build_engine(&program)) {
             Ok(Ok(t)) => t,
             Ok(Err(e)) => {
@@ -371,7 +380,7 @@ pub fn run(cx: &mut Cx) {
         // ---- (2b) a registered template included from a one-off string renders what rendering it directly gives
         // (what `__tera_context` lists inside an included template is not specified — it leaves out the global context
         // today — so programs that use the dump are left out of this comparison)
-        let uses_dump = program.templates.iter().any(|(_, s)| s.contains("__tera_context"));
+        let uses_dump = program.templates.iter().any(|(n, s)| !n.starts_with("cf/") && s.contains("__tera_context"));
         for e in program.entries.iter().take(if uses_dump { 0 } else { 2 }) {
             let r = guard(|| (tera.render(e, &ctx).map_err(|x| x.to_string()), tera.render_str(&format!("{{% include \"{e}\" %}}"), &ctx, true).map_err(|x| x.to_string())));
             cx.evals(2);
@@ -392,6 +401,58 @@ pub fn run(cx: &mut Cx) {
                     }
                 }
                 Err(p) => cx.violation(&format!("C18/panic/{}", panic_site(&p)), format!("include of {e} from a one-off string panicked: {p}"), json!({"templates": program.templates})),
+            }
+        }
+        // ---- (2c) a render is a function of the templates and the context it is given, not of the renders before it: the
+        // same jobs with a second context (same variable names, other values) on this engine, which has rendered them all
+        // with the first one, give what an engine that has never rendered anything gives; and the first context again gives
+        // the reference
+        if case % 2 == 1 {
+            let mut ctx2 = Context::new();
+            ctx2.insert("s1", "Other <text> & more");
+            ctx2.insert("s2", "deux");
+            ctx2.insert("n1", &8);
+            ctx2.insert("n2", &5);
+            ctx2.insert("f1", &0.25);
+            ctx2.insert("b1", &false);
+            ctx2.insert("b0", &true);
+            ctx2.insert("xs", &vec!["q<", "r"]);
+            ctx2.insert("ns", &vec![9, 8]);
+            ctx2.insert("empty", &vec![0]);
+            ctx2.insert("a", "B<arg>");
+            ctx2.insert("n", &2);
+            ctx2.insert("extra", "only in the second context");
+            if let Ok(Ok(fresh)) = guard(|| build_engine(&program)) {
+                for (k, job) in jobs.iter().enumerate() {
+                    let r = guard(|| {
+                        let b = run_job(&tera, &ctx2, job).map_err(|e| e.to_string());
+                        let bf = run_job(&fresh, &ctx2, job).map_err(|e| e.to_string());
+                        let a3 = run_job(&tera, &ctx, job).map(|s| s.into_bytes()).map_err(|e| e.to_string());
+                        (b, bf, a3)
+                    });
+                    cx.evals(3);
+                    let Ok((b, bf, a3)) = r else {
+                        cx.violation("C18/panic/second-context", format!("render panicked on {job:?} with a second context"), json!({"templates": program.templates, "job": format!("{job:?}")}));
+                        continue;
+                    };
+                    cx.count("context_alternations_compared", 1);
+                    let same = |x: &Result<String, String>, y: &Result<String, String>| match (x, y) {
+                        (Ok(a), Ok(b)) => a == b,
+                        (Err(_), Err(_)) => true,
+                        _ => false,
+                    };
+                    if !same(&b, &bf) {
+                        cx.violation("C18/render-depends-on-earlier-renders", format!("{job:?} with a second context gave {:?} on the engine that had rendered it with the first one, {:?} on a new engine", b.as_ref().map(|s| clip(s, 200)), bf.as_ref().map(|s| clip(s, 200))), json!({"templates": program.templates, "job": format!("{job:?}")}));
+                    }
+                    let back = match (&a3, &reference[k]) {
+                        (Ok(a), Ok(b)) => a == b,
+                        (Err(_), Err(_)) => true,
+                        _ => false,
+                    };
+                    if !back {
+                        cx.violation("C18/render-depends-on-earlier-renders", format!("{job:?} with the first context again, after a render with another one, gave {:?}, at first {:?}", a3.as_ref().map(|b| clip(&String::from_utf8_lossy(b), 200)), reference[k].as_ref().map(|b| clip(&String::from_utf8_lossy(b), 200))), json!({"templates": program.templates, "job": format!("{job:?}")}));
+                    }
+                }
             }
         }
         // ---- (3) purity
